@@ -7,6 +7,7 @@ import (
 	"go/ast"
 	"go/token"
 	"go/types"
+	"golang.org/x/tools/go/ssa"
 	"strings"
 
 	"golang.org/x/tools/go/cfg"
@@ -183,6 +184,7 @@ func runC19(c *Ctx, r *Rec) {
 	r.count("shared roots", len(roots))
 	r.floor("D2-shared-mutable", 5)
 	checkClassStateHandedOut(c, r, "D2-instances-share-nothing")
+	checkPooledEscape(c, r, "D2-pooled-objects-stay-home")
 
 	// ---- D3 write-once package variables
 	for _, role := range []string{"agent", "collection", "cdcn", "module"} {
@@ -336,4 +338,74 @@ func checkClassStateHandedOut(c *Ctx, r *Rec, rule string) {
 		}
 	}
 	r.count("class fields handed to instances", n)
+}
+
+// checkPooledEscape: an object handed back to a sync.Pool may be picked up by any other
+// goroutine at once.  A function that puts an object back (typically by defer) must not also
+// return it, or anything carved out of it, to its caller.
+func checkPooledEscape(c *Ctx, r *Rec, rule string) {
+	fa := c.flow()
+	n := 0
+	for _, f := range fa.fns {
+		if f == nil || f.Blocks == nil {
+			continue
+		}
+		var put []ssa.Value
+		var putPos token.Pos
+		for _, b := range f.Blocks {
+			for _, ins := range b.Instrs {
+				var cc *ssa.CallCommon
+				switch x := ins.(type) {
+				case *ssa.Call:
+					cc = x.Common()
+				case *ssa.Defer:
+					cc = x.Common()
+				}
+				if cc == nil {
+					continue
+				}
+				callee := cc.StaticCallee()
+				if callee == nil || callee.Name() != "Put" || callee.Pkg == nil || callee.Pkg.Pkg.Path() != "sync" || len(cc.Args) != 2 {
+					continue
+				}
+				put = append(put, cc.Args[1])
+				putPos = ins.Pos()
+			}
+		}
+		if len(put) == 0 {
+			continue
+		}
+		n++
+		pooled := map[ssa.Value]bool{}
+		for _, p := range put {
+			allocRoots(p, map[ssa.Value]bool{}, pooled)
+		}
+		bad := ""
+		for _, b := range f.Blocks {
+			for _, ins := range b.Instrs {
+				ret, ok := ins.(*ssa.Return)
+				if !ok {
+					continue
+				}
+				for _, rv := range ret.Results {
+					if !carriesStorage(rv.Type()) {
+						continue
+					}
+					roots := map[ssa.Value]bool{}
+					allocRoots(rv, map[ssa.Value]bool{}, roots)
+					for root := range roots {
+						if pooled[root] {
+							bad = fmt.Sprintf("the function gives an object back to a sync.Pool (at %s) and also returns it, or a part of it, to its caller: another goroutine can take the object from the pool and overwrite it while the caller still reads it", c.pos(putPos))
+						}
+					}
+				}
+			}
+		}
+		name := f.Name()
+		if f.Parent() != nil {
+			name = f.Parent().Name() + "/" + name
+		}
+		r.check(bad == "", rule, name, c.pos(f.Pos()), "what goes back to the pool does not leave the function", bad)
+	}
+	r.count("functions that return objects to a sync.Pool", n)
 }
